@@ -29,6 +29,9 @@ def _expand(e, pos, z3, S):
         guard = None
         if e.is_forall() and z3.is_implies(body):
             guard, inner = body.arg(0), body.arg(1)
+        elif e.is_forall() and z3.is_or(body) and z3.is_not(body.arg(0)):
+            guard = body.arg(0).arg(0)
+            inner = z3.Or(*body.children()[1:]) if body.num_args() > 2 else body.arg(1)
         elif (not e.is_forall()) and z3.is_and(body):
             guard, inner = body.arg(0), z3.And(*body.children()[1:]) if body.num_args() > 2 else body.arg(1)
         else:
@@ -104,11 +107,56 @@ def small_scope(smt2, timeout_ms=10000):
     s0 = z3.Solver()
     s0.from_string(smt2)
     out = []
+    defax = []
     for a in s0.assertions():
+        if z3.is_quantifier(a) and a.is_forall() and a.num_patterns() == 1 and all(a.var_name(i).startswith("q_") for i in range(a.num_vars())):
+            defax.append(a)  # definitional axiom of a spec function: instantiated at its ground applications below
+            continue
         x = _expand(a, True, z3, SCOPE)
         if x is None:
             return "unknown", ""
         out.append(x)
+    for _ in range(2):  # instances may mention further applications
+        apps = {}
+
+        def collect(e, bound=False):
+            if z3.is_quantifier(e):
+                return
+            if z3.is_app(e):
+                if e.num_args() and e.decl().kind() == z3.Z3_OP_UNINTERPRETED:
+                    apps.setdefault(e.decl().name(), {})[e.get_id()] = e
+                for c in e.children():
+                    collect(c)
+
+        for x in out:
+            collect(x)
+        added = False
+        for a in defax:
+            pat = a.pattern(0)
+            pat = pat.arg(0) if pat.num_args() == 1 and z3.is_app(pat) and pat.decl().name() == "pattern" else pat
+            fname = pat.decl().name()
+            nv = a.num_vars()
+            for app in list(apps.get(fname, {}).values()):
+                vals = [None] * nv
+                ok = True
+                for pa, aa in zip(pat.children(), app.children()):
+                    if z3.is_var(pa):
+                        vals[nv - 1 - z3.get_var_index(pa)] = aa
+                    elif not pa.eq(aa):
+                        ok = False
+                if not ok or any(v is None for v in vals):
+                    continue
+                inst = z3.substitute_vars(a.body(), *reversed(vals))
+                x = _expand(inst, True, z3, SCOPE)
+                if x is None:
+                    return "unknown", ""
+                key = ("inst", fname, app.get_id())
+                if key not in apps:
+                    apps[key] = True
+                    out.append(x)
+                    added = True
+        if not added:
+            break
     s = z3.Solver()
     s.set("timeout", timeout_ms)
     s.add(*out)
@@ -165,7 +213,7 @@ def solve_one(job):
 
     t0 = time.time()
     s = z3.Solver()
-    s.set("timeout", min(3000, Z3_TIMEOUT_MS))
+    s.set("timeout", min(1500, Z3_TIMEOUT_MS))
     try:
         s.from_string(smt2)
         r = s.check()
